@@ -34,7 +34,7 @@ def gen(seed, idx, tier):
         # life cycle: the run is continued from its own file - the Solution read back supplies both
         # the seed state and the options object, exactly as the file recorded them
         scn["reload_phase"] = {"steps": rnd.randint(2, 6)}
-    return scen.maybe_sibling(rnd, scen.maybe_solve_twice(rnd, scn))
+    return scen.maybe_restored(rnd, scen.maybe_sibling(rnd, scen.maybe_solve_twice(rnd, scn)))
 
 
 def run(scn):
